@@ -386,3 +386,48 @@ _PN_IC = dict(name="with-instrument-change", **dict(
             ("change-done", "self.change_instrument == False")],
    modifies=["param:self"], havoc={"self.track_data": "bytes", "self.delta_time": "bytes", "self.change_instrument": "bool"}))
 CONTRACTS[M + "play_Note"]["variants"] = [_PN_IC]
+
+# ---------------------------------------------------------------- track name (meta event 3): length is a VLQ, text ASCII
+_NAMELEN = "(len(result) - 3 - len(name))"
+_c("track_name_event",
+   params={"self": "MidiTrack", "name": "str"}, requires="len(name) < 2 ** 28", returns="bytes", modifies=[], pure=True,
+   ensures=[("delta-0-meta-3", "result[0] == 0 and result[1] == 255 and result[2] == 3"),
+            ("length-of-the-name-as-a-variable-length-quantity", "is_vlq(result[3:len(result) - len(name)], len(name))"),
+            ("then-the-name-itself", "result[len(result) - len(name):] == ascii_bytes(name)")],
+   raises={"UnicodeEncodeError": "not is_ascii(name)"},
+   battery="track_names")
+_c("set_track_name",
+   params={"self": "MidiTrack", "name": "str"}, requires="len(name) < 2 ** 28", returns="None",
+   old={"old_data": "self.track_data"},
+   ensures=[("earlier-data-untouched", "self.track_data[:len(old_data)] == old_data"),
+            ("delta-0-meta-3", "self.track_data[len(old_data)] == 0 and self.track_data[len(old_data) + 1] == 255 and "
+                               "self.track_data[len(old_data) + 2] == 3"),
+            ("length-of-the-name-as-a-variable-length-quantity",
+             "is_vlq(self.track_data[len(old_data) + 3:len(self.track_data) - len(name)], len(name))"),
+            ("then-the-name-itself", "self.track_data[len(self.track_data) - len(name):] == ascii_bytes(name)")],
+   raises={"UnicodeEncodeError": "not is_ascii(name)"},
+   modifies=["param:self"], havoc={"self.track_data": "bytes"}, battery="track_names")
+
+# ---------------------------------------------------------------- construction and reset
+CLASSES["BlankMidiTrack"] = {"class": "mingus.midi.midi_track.MidiTrack", "fields": {}}
+_c("__init__",
+   params={"self": "BlankMidiTrack", "start_bpm": "int"}, requires="4 <= start_bpm and start_bpm <= 60000000",
+   returns="None",
+   ensures=[("starts-with-one-set-tempo-event-at-delta-0",
+             "len(self.track_data) == 7 and self.track_data[0] == 0 and self.track_data[1] == 255 and "
+             "self.track_data[2] == 81 and self.track_data[3] == 3"),
+            ("microseconds-per-quarter-big-endian",
+             "self.track_data[4] * 65536 + self.track_data[5] * 256 + self.track_data[6] == 60000000 // start_bpm"),
+            ("tempo-remembered", "self.bpm == start_bpm")],
+   variants=[dict(name="default", params={"self": "BlankMidiTrack"}, requires="True",
+                  ensures=[("starts-with-one-set-tempo-event-at-delta-0",
+                            "len(self.track_data) == 7 and self.track_data[0] == 0 and self.track_data[1] == 255 and "
+                            "self.track_data[2] == 81 and self.track_data[3] == 3"),
+                           ("half-a-second-per-quarter-120-bpm",
+                            "self.track_data[4] * 65536 + self.track_data[5] * 256 + self.track_data[6] == 500000 and "
+                            "self.bpm == 120")])],
+   modifies=["param:self"], battery="track_blank_midi")
+_c("reset",
+   params={"self": "MidiTrack"}, returns="None",
+   ensures=[("no-data-and-a-zero-delta-time", "self.track_data == b'' and self.delta_time == b'\\x00'")],
+   modifies=["param:self"], havoc={"self.track_data": "bytes", "self.delta_time": "bytes"}, battery="track_only")
